@@ -1,5 +1,6 @@
 """C14 - persisted environments survive crashes: a bad file means not-done, not an abort."""
 import itertools
+import logging
 import os
 import pickle
 import shutil
@@ -357,6 +358,141 @@ def job_history(args):
     return rep
 
 
+# ------------------------------------------------------------------ histories of the real `run` command
+JOB_FILE = '''"""Job file of the C14 run-history check: three tasks whose behaviour is read from a control file at execution time."""
+import json
+import os
+
+from valjean.cosette.task import Task, TaskStatus
+
+CTRL = os.environ['VF_C14_CTRL']
+
+
+class Step(Task):
+    def do(self, env, config):
+        with open(CTRL, encoding='utf-8') as fil:
+            ctrl = json.load(fil)
+        out = os.path.join(config.query('path', 'output-root'), self.name)
+        os.makedirs(out, exist_ok=True)
+        with open(CTRL + '.journal', 'a', encoding='utf-8') as fil:
+            fil.write(self.name + '\\n')
+        upd = {self.name: {'output_dir': out, 'payload': [self.name, ctrl['run']]}}
+        return upd, (TaskStatus.FAILED if self.name in ctrl['fail'] else TaskStatus.DONE)
+
+
+def job():
+    produce = Step('produce')
+    consume = Step('consume', deps=[produce])
+    side = Step('side', soft_deps=[produce])
+    return [consume, side]
+'''
+RUN_TASKS = ('produce', 'consume', 'side')
+
+
+def job_runcmd(args):
+    """BFS over histories of {`valjean run` with a set of failing tasks, truncation / deletion of a task's environment file between
+    runs}: after every run, what read_env gives back must be exactly the DONE entries (with an output directory) of the environment
+    the run ended with - never a DONE entry for a task that did not end DONE."""
+    depth, first = args
+    import argparse
+    import json
+    from valjean.cambronne.commands.run import RunCommand
+    from valjean.config import Config
+    rep = Report()
+    root = tempfile.mkdtemp(prefix='vf_c14r_')
+    jobfile = os.path.join(root, 'job_c14.py')
+    with open(jobfile, 'w', encoding='utf-8') as fil:
+        fil.write(JOB_FILE)
+    ctrl = os.path.join(root, 'ctrl.json')
+    os.environ['VF_C14_CTRL'] = ctrl
+    work = os.path.join(root, 'work')
+    envname = FILENAME
+
+    def file_of(name):
+        return os.path.join(work, 'out', name, envname)
+
+    def run_once(fail, number):
+        with open(ctrl, 'w', encoding='utf-8') as fil:
+            json.dump({'fail': sorted(fail), 'run': number}, fil)
+        conf = Config()
+        conf.set('path', 'output-root', os.path.join(work, 'out'))
+        conf.set('path', 'log-root', os.path.join(work, 'log'))
+        ns = argparse.Namespace(job_file=jobfile, job_args=[], job_kwargs={}, workers=1, env_filename=envname, env_format='pickle')
+        return RunCommand().execute(ns, conf)
+
+    def build(hist):
+        shutil.rmtree(work, ignore_errors=True)
+        os.makedirs(work)
+        last, err = None, None
+        for number, step in enumerate(((first,) if first else ()) + tuple(hist)):
+            try:
+                if step[0] == 'run':
+                    last = run_once(step[1], number)
+                elif step[0] == 'truncate':
+                    if os.path.isfile(file_of(step[1])):
+                        with open(file_of(step[1]), 'rb') as fil:
+                            blob = fil.read()
+                        with open(file_of(step[1]), 'wb') as fil:
+                            fil.write(blob[:len(blob) // 2])
+                elif os.path.isfile(file_of(step[1])):
+                    os.remove(file_of(step[1]))
+            except Exception as exc:  # pylint: disable=broad-except
+                err = (step, exc)
+                break
+        return last, err
+
+    def canon(_obj):
+        out = []
+        for name in RUN_TASKS:
+            path = file_of(name)
+            if not os.path.isfile(path):
+                out.append(None)
+                continue
+            with open(path, 'rb') as fil:
+                blob = fil.read()
+            try:
+                ent = pickle.loads(blob)[name]
+                out.append((getattr(ent.get('status'), 'name', None), 'intact'))     # run numbers do not matter for the future
+            except Exception:  # pylint: disable=broad-except
+                out.append('damaged')
+        return tuple(out)
+
+    def check(hist, obj):
+        last, err = obj
+        full = ((first,) if first else ()) + tuple(hist)
+        if err is not None:
+            return [(f'C14|run-command|raises|{type(err[1]).__name__}|after-{err[0][0]}', f'step {err[0]} raised {err[1]!r}')]
+        if not full or full[-1][0] != 'run' or last is None:
+            return []
+        ref = {}
+        for name in RUN_TASKS:
+            ent = last.get(name) if name in last else None
+            if ent is not None and getattr(ent.get('status'), 'name', None) == 'DONE' and ent.get('output_dir'):
+                ref[name] = deepsnap(ent)
+        sub = Report()
+        prev = [s[0] for s in full[:-1]]
+        tag = 'run-command|' + ('after-damage' if ('truncate' in prev or 'delete' in prev) else 'runs-only')
+        out = judge_read(sub, os.path.join(work, 'out'), list(RUN_TASKS), ref, {'history': [list(map(_plain, s)) for s in full]}, tag, size=len(full))
+        rep.outcomes[('run-command', out if isinstance(out, str) else len(out))] += 1
+        return [(k, v[0]) for k, v in sub.violations.items()]
+
+    ops = [('run', ()), ('run', ('produce',)), ('run', ('consume',)), ('run', ('side',))]
+    ops += [(kind, name) for kind in ('truncate', 'delete') for name in RUN_TASKS]
+    logging.disable(logging.CRITICAL)
+    try:
+        bfs.search(build, lambda h, o: [] if o[1] else ops, canon, check, depth, rep, label=f'run-command:first={first}', prune_violating=True)
+        rep.nontrivial_count += max(rep.states - 1, 0)
+        rep.sample({'history': [['run', []], ['truncate', 'produce'], ['run', ['produce']]]})
+    finally:
+        logging.disable(logging.NOTSET)
+        shutil.rmtree(root, ignore_errors=True)
+    return rep
+
+
+def _plain(obj):
+    return list(obj) if isinstance(obj, tuple) else obj
+
+
 REAL_PAIRS = [
     # (entry on disk from an earlier run, entry being written when the job is killed / the disk fills up)
     ((('t0', 'DONE', True, 'nested', 1),), (('t0', 'FAILED', True, 'nested', 2),)),
@@ -431,6 +567,7 @@ def run(tier, seed):
     firsts = [None] + [('write', k) for k in HIST_ENVS] + [('crash', 'A', 't0', 2), ('crash', 'D', 't1', 3)]
     jobs += [(job_history, (depth, first)) for first in firsts]
     jobs += [(job_real_crash, pair) for pair in REAL_PAIRS]
+    jobs += [(job_runcmd, (depth + (1 if tier == 'quick' else 0), first)) for first in (('run', ()), ('run', ('produce',)), ('run', ('consume',)), ('run', ('side',)))]
     rep = pool.pmap(_call, jobs, seed)
     rep.extra['history_depth'] = depth + 1
     return rep
